@@ -3,6 +3,8 @@ package props
 import (
 	"encoding/json"
 
+	coraza "github.com/corazawaf/coraza/v3"
+
 	"verif/internal/fw"
 	"verif/internal/gen"
 	"verif/internal/sl"
@@ -14,15 +16,28 @@ type flowCase struct {
 	Req     *sl.Req     `json:"req"`
 }
 
+var (
+	flowLastWAF  coraza.WAF
+	flowLastText string
+)
+
 // flowJudge runs one (program, request) pair against the model. Returns false on build error.
 func flowJudge(w *fw.W, prop string, c *flowCase, o sl.CompareOpts, classify func(d string, exp *sl.Result, got *sl.ExecResult) string, cover func(exp *sl.Result)) bool {
-	waf, err := sl.BuildText(c.Text)
-	if err != nil {
-		w.Count("build_errors", 1)
-		w.Cover("build_error_samples", err.Error())
-		return false
+	// consecutive cases of one rule set share the WAF (so later transactions run on recycled objects)
+	if flowLastWAF == nil || flowLastText != c.Text {
+		if flowLastWAF != nil {
+			sl.CloseWAF(flowLastWAF)
+			flowLastWAF = nil
+		}
+		nw, err := sl.BuildText(c.Text)
+		if err != nil {
+			w.Count("build_errors", 1)
+			w.Cover("build_error_samples", err.Error())
+			return false
+		}
+		flowLastWAF, flowLastText = nw, c.Text
 	}
-	defer sl.CloseWAF(waf)
+	waf := flowLastWAF
 	exp := sl.Run(c.Program, c.Req)
 	if exp.Ambiguous != "" {
 		w.Count("ambiguous_skipped", 1)
@@ -133,7 +148,7 @@ func init() {
 			return bs
 		},
 		Run: func(w *fw.W, b fw.Batch) {
-			progs, subsets := 250, 48
+			progs, subsets := 700, 48
 			if w.Tier == fw.Thorough {
 				progs, subsets = 2500, 96
 			}
